@@ -4,6 +4,7 @@ CONSTANTS
   AsFound_LabourDemandLate = FALSE
   AsFound_LiteralSupGood = FALSE
   AsFound_DividendsPerPayer = FALSE
+  AsFound_FirstRecipient = FALSE
 INVARIANT Steps_Shape
 INVARIANT Steps_CommandsAreSectors
 INVARIANT Steps_RefinesMain
